@@ -57,6 +57,7 @@ impl Monitor for C01 {
         }
         let engine = ActSet::from_codes(o.norep_codes);
         let model = sh.board.legal(sh.gold, sh.step, sh.pend);
+        s.max("longest_rule_only_list", o.norep_codes.len() as u64);
         if engine != model {
             let extra: Vec<String> = engine.iter().filter(|c| !model.contains(*c)).map(code_text).collect();
             let missing: Vec<String> = model.iter().filter(|c| !engine.contains(*c)).map(code_text).collect();
